@@ -201,7 +201,7 @@ class Gen:
     def call(self, profile=None):
         r = self.rng
         profile = profile or r.choice(["mix", "mix", "mix", "ints", "strings", "strlen", "total", "total", "struct",
-                                       "addr", "ptr", "ret", "stdstr", "many", "multi", "multi", "multi"])
+                                       "addr", "ptr", "ret", "stdstr", "many", "multi", "multi", "multi", "long"])
         c = self.blank(profile)
         if profile == "ints":
             for _ in range(r.randrange(1, 9)):
@@ -235,6 +235,13 @@ class Gen:
         elif profile == "stdstr":
             for _ in range(r.randrange(1, 4)):
                 r.choice([self.add_stdstr, self.add_stdstr, self.add_int, self.add_str])()
+        elif profile == "long":
+            # a display around the 1024 characters of replay's buffer: strings of 40..98 characters, some with escapes
+            for _ in range(r.randrange(9, 14)):
+                if r.random() < 0.75:
+                    self.add_str(n=r.choice([40, 60, 80, 90, 97, 98, 120]))
+                else:
+                    self.add_int()
         elif profile == "many":
             for _ in range(r.randrange(8, 20)):
                 r.choice([self.add_int, self.add_int, self.add_char, self.add_str])()
@@ -247,8 +254,12 @@ class Gen:
         if not c["specs"] and not c["rspecs"]:
             self.add_int()
         # keep the display inside replay's 1 KiB text buffers (their overflow is a separate witness)
-        while self.display_len(c) > 900 and c["specs"]:
+        # mostly inside replay's 1 KiB text buffer; one call in ten may exceed it (the text then stops early)
+        cap = 2600 if (profile == "long" or r.random() < 0.05) else 900
+        while self.display_len(c) > cap and c["specs"]:
             self.drop_last()
+        if self.display_len(c) > 900:
+            c["tags"].append("display>900")
         x = r.choice([0, 0x3ff8000000000000, 0x400921fb54442d18, 0x8000000000000000, 1, r.getrandbits(64), r.getrandbits(64)])
         if (x >> 52) & 0x7ff == 0x7ff:
             x &= ~(1 << 62)              # no NaN / infinity: the logging scripts print numbers, not bits
@@ -1016,6 +1027,10 @@ class Impl:
             seg_a, seg_r = out[a:b], out[b:e if e >= 0 else len(out)]
             c["obs"]["dump_args"] = [(int(m.group(1)), m.group(2).decode(), int(m.group(3)), int(m.group(4), 16))
                                      for m in re.finditer(rb"\n  args\[(\d+)\] ([a-zA-Z])(\d+): 0x([0-9a-f]+)(?=\n)", seg_a)]
+            # strings as dump prints them (raw bytes up to the next item of the same record)
+            c["obs"]["dump_strs"] = {}
+            for m in re.finditer(rb"\n  args\[(\d+)\] (?:str|std::string): (.*?)(?=\n  args\[\d+\] |\n\d+\.\d{9} +\d+: \[|\Z)", seg_a, re.S):
+                c["obs"]["dump_strs"][int(m.group(1))] = m.group(2)
             c["obs"]["dump_ret"] = []
             for i, m in enumerate(re.finditer(rb"\n  retval ([^\n]*)", seg_r)):
                 m2 = re.match(rb"([a-zA-Z])(\d+): 0x([0-9a-f]+)$", m.group(1))
@@ -1203,6 +1218,17 @@ def judge_dump(c):
             continue
         byidx = {g[0]: g for g in got}
         for i, (sp, a) in enumerate(zip(pspecs, actual)):
+            if what == "args" and FMTS[sp["fmt"]] in ("FStr", "FStdStr") and a[0] in ("str", "null", "bad"):
+                want = (b"NULL" if a[0] == "null" else ("<%#x>" % resolve(c, a[1] if len(a) > 1 else "@BAD")).encode()
+                        if a[0] == "bad" else cstrings(c)[a[1]])
+                if len(want) > ARG_STR_MAX:
+                    want = want[:ARG_STR_MAX - 3] + b"..."
+                gs = c["obs"].get("dump_strs", {}).get(i)
+                if b"\n  args[" in want or b"\n" in want:
+                    continue                      # the line format of dump cannot be split safely
+                if gs != want:
+                    return "args[%d] (string): dump shows %r, the string passed is %r" % (i, gs, want)
+                continue
             if a[0] not in ("int", "flt") or FMTS[sp["fmt"]] in ("FStr", "FStdStr", "FStruct", "FPtr", "FEnum"):
                 continue
             g = byidx.get(i)
